@@ -4,6 +4,29 @@ import json, os
 ROOT = os.path.dirname(os.path.dirname(os.path.abspath(__file__)))
 
 CLAIMED = {
+    "C19": dict(
+        engine="meta", design_ref="6.19",
+        technique="Lean 4 proof (index-based model of encoding.rs refined to the WHATWG extraction algorithm written as "
+                  "the standard's loop, by induction on loop fuel / remaining length) + model/code correspondence through "
+                  "the real public API; firing rule checked by an oracle on the real tokenizer + tree builder",
+        text="Extraction is a theorem: for ALL byte strings the model of encoding.rs "
+             "(extract_a_character_encoding_from_a_meta_element: byte offsets, `?` early returns, every slice index / "
+             "usize subtraction / subtendril as a panic branch, both loops on fuel) returns exactly what the WHATWG "
+             "'extracting a character encoding from a meta element' algorithm returns (raw label — html5ever does not "
+             "perform the final 'get an encoding' lookup) and never panics; the model is tied to the code by feeding "
+             "`<meta http-equiv=content-type content=…>` to the real Tokenizer+TreeBuilder+RcDom and comparing the label "
+             "of the EncodingIndicator returned by feed() on a grammar-exhaustive set of content strings. "
+             "The clause 'feed() suspends exactly once per meta start tag inserted as an HTML meta element with charset "
+             "or http-equiv=content-type + extractable content, the element is already in the tree, resuming continues as "
+             "if nothing had happened' is NOT a theorem yet (tree-builder model is a separate work package): it is carried "
+             "by an oracle on the real code — indicators vs qualifying HTML meta elements of the final tree, for meta / "
+             "link / base / basefont / bgsound variants in every insertion-mode context and fragment context, every "
+             "split position, and tree + parse-error equality with the same document with the attributes neutralised.",
+        note="Trusted: Lean kernel; Spec.MetaExtract (my transcription of the standard's algorithm, cross-checked each run "
+             "against an independent Python transcription); byte-level reading of an algorithm that only inspects ASCII; "
+             "the hand-written model + the meta correspondence. StrTendril::subtendril's UTF-8 boundary check is not "
+             "modelled (cuts are adjacent to ASCII bytes). Firing rule: differential/oracle evidence only, to be joined by "
+             "a tree-builder theorem (C02/C05 work package)."),
     "C10": dict(
         engine="utf8", design_ref="6.10",
         technique="Lean 4 proof (streaming invariant relating the pending incomplete prefix to the unread suffix; "
@@ -92,6 +115,57 @@ CLAIMED["C07"] = dict(
          "starts the first text node is dropped by the tokenizer by design of that option). Writer I/O errors are not "
          "modelled. The serializer writes text children of void elements and has no leading-newline handling for "
          "pre/textarea/listing; both are outside the property's vocabulary and modelled as they are.")
+
+CLAIMED["C11"] = dict(
+    engine="tendril", design_ref="6.11",
+    technique="Lean 4 proof: heap model of tendril.rs / buf32.rs / fmt.rs / futf.rs (index-checked arena, the three "
+              "representations inline/owned/shared), well-formedness invariant, refinement of every operation to an "
+              "independent pool of owned byte strings with a frame (independence) clause, induction over histories; "
+              "UTF-8 format laws proved against Unicode Table 3-7; model/code correspondence on an exhaustive "
+              "op × representation × boundary-length cover incl. representation kind, sharing groups and allocation "
+              "events; Python owned-string reference as oracle",
+    text="For ALL heaps and pools satisfying the invariant WF (ranges inside initialised data, owned buffers referenced "
+         "once, refcount = number of referents, ledger consistent) and holding valid contents, every operation of the "
+         "model (new/from/push/try_push/push_char/push_tendril incl. the adjacent-slice merge, pop_front/pop_back and "
+         "their try_ variants, subtendril, clone, clear, drop, pop_front_char, pop_front_char_run, into_send round trip, "
+         "reserve, with_capacity, DerefMut store) is proved to preserve WF, never to reach undefined behaviour, to change "
+         "its own slot exactly as the owned-string specification says and to leave every other slot's bytes unchanged; "
+         "checked operations answer Err exactly when out of bounds / invalid for the format; lifted to all histories by "
+         "induction (C11_run_refines, C11_reachable_wf). Proved for Bytes, ASCII, Latin1 and UTF8 (laws_utf8: the futf "
+         "prefix/suffix checks are exact on parts of valid strings; C11_utf8_valid: a UTF-8 tendril always holds "
+         "well-formed UTF-8). Below 2^30 bytes the model panics only where the specification does "
+         "(C11_no_spurious_panic). The model is tied to the Rust by the tendril correspondence (result, bytes, "
+         "inline/owned/shared kind, sharing groups, allocation sizes after every op; 5 formats × 2 atomicities).",
+    note="Partial: WTF-8 (the only format with a concatenation fix-up) has no proved format laws — it is covered by the "
+         "safety theorems of C12, the correspondence and the Python reference only. Trusted: Lean kernel; the "
+         "hand-written model + the tendril correspondence (differential, coverage in evidence); str::from_utf8 / "
+         "char_indices modelled by a Table 3-7 decoder (validated on boundary sequences, thorough tier on all leading "
+         "byte pairs); pointer provenance, transmutes between formats/atomicities and Vec/allocator internals are "
+         "abstracted; on a panic the model keeps the old state (OFLOW inside grow after make_owned, > 2 GiB, is the only "
+         "panic after a mutation in the Rust).")
+
+CLAIMED["C12"] = dict(
+    engine="tendril", design_ref="6.12",
+    technique="Lean 4 proof over the same heap model with every raw access a checked primitive and an allocation trace: "
+              "invariant preservation + absence of Fault.ub for every operation, an independent ledger monitor accepting "
+              "the trace, live-iff-referenced, empty-at-end, and a theorem on all interleavings of atomic "
+              "fetch_add/fetch_sub events; correspondence incl. allocation events; harness global allocator with layout "
+              "check, canary, poison + quarantine; multi-thread family; Miri sample in the thorough tier",
+    text="Partial (model-level): for every operation from every reachable state, for all five formats, the invariant is "
+         "preserved and no modelled access is a wild / dangling / out-of-bounds access, double free, wrong-layout "
+         "dealloc or refcount underflow (C12_step_safe, C12_reachable, C12_reachable_valid); the monitor replaying the "
+         "trace accepts it and agrees with the heap (C12_ledger), in an accepted trace an id is allocated once, freed "
+         "at most once and never mentioned after its release (mon_free_once, mon_dead_forever); a buffer is live iff "
+         "some tendril refers to it and its refcount is the number of referents (C12_live_iff_referenced); dropping "
+         "all tendrils releases every buffer exactly once (C12_empty_at_end); for any interleaving of atomic clone / "
+         "drop / send events by threads that hold the references they use, exactly one fetch_sub observes 1 and it is "
+         "the last event (C12_atomic_interleaving).",
+    note="The theorems are about the model's arithmetic, not about pointer provenance, the transmutes or the memory "
+         "model: fetch_add/fetch_sub are assumed linearisable and the Release/Acquire fences assumed to make that "
+         "linearisation valid for the buffer contents. Real memory is observed, not proved: the harness allocator "
+         "(events with sizes compared with the model after every op, layout/canary/poison/quarantine checks, live=0 at "
+         "the end of every case), 4-thread scripts compared with a sequential replay, Miri (no UB on a sample, thorough "
+         "tier). UTF-8 safety rests on contents staying valid (via C11's laws).")
 
 PENDING_REASON = "not claimed yet: the Lean model / engine for this property is still under construction (see DESIGN.md section 8); no check is registered rather than registering one that is not sound"
 
